@@ -775,7 +775,7 @@ func (s *scanner) ReadStreamData(dict Dict) (stm *Stream, err error) {
 		n, err := s.getInt(lengthObj)
 		if err == nil && n >= 0 {
 			declared = int64(n)
-		} else if IsReadError(err) {
+		} else if isSourceFailure(err) {
 			// only a malformed /Length may be recovered from
 			return nil, err
 		}
